@@ -5,3 +5,4 @@ import Dnp3.Driver.Link
 import Dnp3.Driver.Transport
 import Dnp3.Driver.Outstation
 import Dnp3.Model.OutstationTrace
+import Dnp3.Driver.Convert
